@@ -12,7 +12,7 @@ import vlib, glob, os
 ok, out = vlib.coq_makefile()
 print("coq_makefile", ok, out[-500:])
 targets = [os.path.relpath(p, vlib.COQ)[:-2] + ".vo" for p in sorted(glob.glob(os.path.join(vlib.COQ, "theories", "Props", "*.v")))]
-ok, out = vlib.coq_build(targets, timeout=6000)
+ok, out = vlib.coq_build(targets, timeout=6000, keep_going=True)
 print("coq build", ok)
 if not ok:
     print(out[-3000:])
